@@ -117,6 +117,12 @@ impl<R: Read> Read for ChunkedBodyReader<R> {
             return Ok(0);
         }
 
+        // the chunk decoder parses chunk framing even for a buffer without room, and keeps no
+        // record of having consumed the last chunk: such a read must not reach it
+        if buf.is_empty() {
+            return Ok(0);
+        }
+
         let result = self.decoder.read(buf);
         match result {
             Ok(0) if !buf.is_empty() => self.finished = true,
